@@ -134,7 +134,7 @@ def rand_buffer(rng):
 
 def gen_factory(rng):
     """random factory from a few graph shapes; every parameter from the PRNG"""
-    shape = rng.choice(["line", "line", "fanout", "fanin", "diamond", "two", "split", "split", "pack", "pack", "pack", "unpack"])
+    shape = rng.choice(["line", "line", "fanout", "fanin", "diamond", "two", "split", "split", "pack", "pack", "pack", "unpack", "cross", "cross"])
     edges, nodes, links = [], [], []
     def E(): edges.append(rand_buffer(rng)); return len(edges) - 1
     def N(d): nodes.append(d); return len(nodes) - 1
@@ -144,9 +144,12 @@ def gen_factory(rng):
         if blocking and rng.random() < 0.15: iat = [0] + iat
         return N(dict(kind="source", iat=iat, blocking=blocking, out=rand_policy(rng, nout)))
     def machine(nin, nout):
+        inp, out = rand_policy(rng, nin), rand_policy(rng, nout)
+        if rng.random() < 0.15:          # the same library policy on both sides (two selector objects of one node)
+            inp = out = rng.choice(["ROUND_ROBIN", "ROUND_ROBIN", "RANDOM"])
         return N(dict(kind="machine", pd=[rng.choice([0, 1, 2, 4, 6]) for _ in range(rng.randrange(1, 4))],
                       wc=rng.choice([1, 1, 2, 3]), setup=rng.choice([0, 0, 1, 3]), blocking=rng.random() < 0.6,
-                      inp=rand_policy(rng, nin), out=rand_policy(rng, nout)))
+                      inp=inp, out=out))
     def sink(): return N(dict(kind="sink"))
     def psource(nout, pallet):
         d = nodes[source(nout)]
@@ -194,6 +197,10 @@ def gen_factory(rng):
     elif shape == "fanin":
         s1 = source(1); s2 = source(1); m = machine(2, 1); k = sink()
         a = E(); b = E(); c = E(); links += [(a, s1, m), (b, s2, m), (c, m, k)]
+    elif shape == "cross":
+        # two sources -> one machine with two in-edges and two out-edges -> two sinks
+        s1 = source(1); s2 = source(1); m = machine(2, 2); k1 = sink(); k2 = sink()
+        a = E(); b = E(); c = E(); d = E(); links += [(a, s1, m), (b, s2, m), (c, m, k1), (d, m, k2)]
     elif shape == "split":
         # one machine feeding a slow branch and a fast branch: out-edges that are full at different times
         s = source(1); m1 = machine(1, 2); k1 = sink(); k2 = sink()
